@@ -82,8 +82,8 @@ def r1(rr, repo):
     for s in scans:
         loops = [a for a in ancestors(s) if isinstance(a, ast.For)]
         inner = loops[0] if loops else None
-        ok = inner is not None and U(inner.iter) in ('reversed(outputs)', 'outputs')
-        rr.ob('the scan looks at every user-given output of a filter (not only the first)', ok, cmod, s, witness=U(inner.iter) if inner else '', key='scan-all')
+        ok = inner is not None and (U(inner.iter) in ('reversed(outputs)', 'outputs') or ('config.sources' in U(inner.iter) and '[0]' not in U(inner.iter) and '[:1]' not in U(inner.iter)))
+        rr.ob('the scan looks at every user-given address of a filter (not only the first)', ok, cmod, s, witness=U(inner.iter) if inner else '', key='scan-all')
         outer = loops[-1] if loops else None
         alloc_outer = [a for a in ancestors(steps[0][0]) if isinstance(a, ast.For)][-1] if steps else None
         ok2 = outer is not None and alloc_outer is not None and outer is not alloc_outer and outer.lineno < alloc_outer.lineno and parent(outer) is pf and parent(alloc_outer) is pf
@@ -345,8 +345,14 @@ def r7(rr, repo):
         # ... and the wildcard test has the right sense: `<host>[:1] in '*0'` selects localhost
         if okh:
             t = host.test
-            okh = isinstance(t, ast.Compare) and len(t.ops) == 1 and isinstance(t.ops[0], ast.In) and q.const_str(t.comparators[0]) is not None and {'*', '0'} <= set(t.comparators[0].value) and \
-                U(t.left) == f'{U(host.orelse)}[:1]'
+            WILD = {'*', '0', '0.0.0.0', '::', '[::]'}
+            whole = isinstance(t, ast.Compare) and len(t.ops) == 1 and isinstance(t.ops[0], ast.In) and isinstance(t.comparators[0], (ast.Tuple, ast.List, ast.Set)) and \
+                all(q.const_str(e) is not None for e in t.comparators[0].elts) and {'*', '0.0.0.0'} <= {e.value for e in t.comparators[0].elts} <= WILD and U(t.left) == U(host.orelse)
+            prefix = isinstance(t, ast.Compare) and len(t.ops) == 1 and isinstance(t.left, ast.Subscript) and isinstance(t.left.slice, ast.Slice)
+            if not whole and not prefix and not (isinstance(t, ast.Compare) and len(t.ops) == 1 and isinstance(t.ops[0], ast.NotIn)):
+                rr.unresolved('the test that recognises a wildcard bind host has a form this rule does not know', cmod, n, witness=U(t)[:80], key='conv-host-form')
+            # a test of the first character only also turns 'tcp://0a.example:5560' into localhost - an address nobody binds
+            okh = whole
         rr.ob("a wildcard bind host ('*', '0...') is replaced by localhost, any other host is kept", okh, cmod, n, witness=U(host)[:80], key='conv-host')
         # port comes from the same split as the host
         sp = [a for a in walk_scope(pf) if isinstance(a, ast.Assign) and isinstance(a.targets[0], ast.Tuple) and port is not None and U(port) in [U(e) for e in a.targets[0].elts] and 'rsplit' in U(a.value)]
@@ -482,3 +488,29 @@ def r11(rr, repo):
             rr.ob('the remaining part takes exactly the keys that are not in the preferred order, with their values', ok2, mod, rest[0], witness=U(rest[0])[:100], key='passthrough-rest-part')
         else:
             rr.unresolved('the returned configuration is rebuilt in a way this rule does not know', mod, c, witness=U(c)[:120], key='passthrough-form')
+
+
+@rule('C12.R12', "an allocated output stays clear of every address the command line mentions, not only of the outputs: the tcp port (and ipc name) of an explicit SOURCE is reserved too - a filter told to listen to "
+                 "tcp://localhost:5550 must not be given tcp://*:5550 as its own output (it would bind what it subscribes to, or clash with the filter outside the list it was meant to tap)")
+def r12(rr, repo):
+    mod, pf = repo.find(f'{CLI}::parse_filters')
+    allocs = [n for n in ast.walk(pf) if isinstance(n, ast.NamedExpr) and U(n.target) == 'max_port' and isinstance(n.value, ast.BinOp)]
+    if not allocs:
+        raise Unresolved(f'{CLI}: parse_filters: the tcp allocation `max_port := max_port + ..` was not found')
+    first_alloc = min(n.lineno for n in allocs)
+    scans = [n for n in walk_scope(pf) if isinstance(n, ast.For) and n.lineno < first_alloc and any(isinstance(x, ast.Assign) and U(x.targets[0]) == 'max_port' and U(x.value).startswith('max(') for x in ast.walk(n))]
+    rr.floor('loops that raise max_port before the allocation', len(scans), 1, mod, pf)
+    def scanned(key):
+        for lp in scans:
+            for inner in [x for x in ast.walk(lp) if isinstance(x, ast.For)]:
+                if f'config.{key}' in U(inner.iter) or any(isinstance(a, ast.NamedExpr) and U(a.target) in U(inner.iter) and f'config.{key}' in U(a.value) for a in ast.walk(lp)):
+                    if any(isinstance(x, ast.Assign) and U(x.targets[0]) == 'max_port' for x in ast.walk(inner)):
+                        return inner
+        return None
+    so, ss = scanned('outputs'), scanned('sources')
+    rr.ob('the ports of explicit outputs are reserved before anything is allocated', so is not None, mod, so if so is not None else scans[0], key='reserve-outputs')
+    rr.ob('the ports of explicit sources are reserved before anything is allocated', ss is not None, mod, ss if ss is not None else scans[0],
+          witness='no loop over config.sources raises max_port' if ss is None else U(ss.iter)[:60], key='reserve-sources')
+    if ss is not None:
+        ipc = any(isinstance(c, ast.Call) and U(c.func).endswith('.add') and 'ipc' in U(c.func) for c in ast.walk(ss))
+        rr.ob('the ipc names of explicit sources are reserved as well', ipc, mod, ss, key='reserve-sources-ipc')
